@@ -381,6 +381,8 @@ def run(repo, chk):
     ok_restore = ok_save and len(restores) == 1 and len(every) == 1 and len(removes) == 1
     chk.ob("R01.11", "transform.transform:binding-restored-or-removed", ok_restore, trf.where,
            "afterwards the name is bound to what it was bound to, or unbound again when there was no such global")
+    from .shared import scratch_maker_obligations
+    scratch_maker_obligations(repo, chk, "R01.11", "the module's globals do not keep ptera's closure factory when building the instrumented copy fails")
     # ------------------------------------------------------------------ R01.10
     def returns_nothing(fi, seen=()):
         """Every return of the function is bare / None / False, or hands on the result of a package function that returns nothing."""
